@@ -360,7 +360,7 @@ pub fn explore(run: &RdRun, init: Box<dyn Rd>) -> Outcome {
                         queue.push_back((nid, r2, np));
                     }
                 }
-                Ok(None) if matches!(op, ROp::Peek(_)) && matches!(obs, RObs::Err) && !errored => {
+                Ok(None) if matches!(op, ROp::Peek(_)) && matches!(obs, RObs::Err) && !errored && !faulted => {
                     // a failed look-ahead must leave the reader intact (table decoders fall back to the
                     // bit-by-bit path after it): the state continues as an ordinary state at the same position
                     let key = format!("{}@{}", r2.key(), pos);
